@@ -57,6 +57,13 @@ def perturbations(desc, tier):
             d_long = G.with_slot(desc, path, base)
             for v in late_variants(base):
                 yield "long-value-differs-late:" + where, (d_long, G.with_slot(desc, path, v))
+    # number texts that denote the same (or nearly the same) number in another notation are other TEXTS: a message says
+    # what it says, equality is not numeric
+    for path, kind in G.slots(desc):
+        if kind == G.K_NUM and path[0] in ("ct", "t"):
+            where = path[0] + ("@" + ("last" if path[1] == len(children) - 1 else "index<last") if path[0] == "ct" else "")
+            for a, b in (("5", "5.0"), ("5", "05"), ("5", "5:00:00"), ("1.5", "1:30"), ("9007199254740992", "9007199254740993"), ("0.1", "0.10000000000000001"), ("1", "+1")):
+                yield "number-text-same-value:" + where, (G.with_slot(desc, path, a), G.with_slot(desc, path, b))
     # slot changes
     for path, kind in G.slots(desc):
         cur = G.get_slot(desc, path)
@@ -216,7 +223,7 @@ def run_shard(shard):
             viol("copy-compares-unequal", "rebuilt-copy", repr(desc), {"kind": "copy", "desc": desc})
         for label, pd in perturbations(desc, tier):
             left_desc, left = desc, a
-            if label.startswith("long-value"):
+            if label.startswith("long-value") or label.startswith("number-text-same-value"):
                 left_desc, pd = pd  # both sides are given
             try:
                 if left_desc is not desc:
@@ -276,10 +283,10 @@ def run_shard(shard):
                 two.append((label, pd))
             if len(desc[3]) <= 2:
                 for label1, pd1 in perturbations(desc, "quick"):
-                    if label1.startswith("long-value"):
+                    if label1.startswith("long-value") or label1.startswith("number-text-same-value"):
                         continue  # (pairs of their own, judged above)
                     for label2, pd2 in perturbations(pd1, "quick"):
-                        if label2.startswith("long-value"):
+                        if label2.startswith("long-value") or label2.startswith("number-text-same-value"):
                             continue
                         two.append(("two-point:%s+%s" % (label1.split("@")[0].split(":")[0], label2.split("@")[0].split(":")[0]), pd2))
             for label, pd in two:
